@@ -65,6 +65,7 @@ class Exec(EvalMixin, CallMixin):
         self.name_counts = {}
         self.abstracted = []
         self.ghost_sites_hit = set()
+        self.iter_heaps = {}
 
     # ------------------------------------------------------------ obligations
     def oblige(self, name, st, goal, line=None, kind="vc"):
@@ -144,6 +145,7 @@ class Exec(EvalMixin, CallMixin):
             self.axioms.append(self.formula(ax, st, cx0, pol=-1))
         self.axioms.append(seq_of_injective())
         self.axioms.extend(congruence_helpers())
+        self.axioms.extend(seq_inverse_axioms())
         for src in con.get("requires", []):
             name, src = src if isinstance(src, tuple) else (None, src)
             st.assume(self.formula(src, st, cx0, pol=-1))
@@ -434,11 +436,11 @@ class Exec(EvalMixin, CallMixin):
             k = v.k
             if k.head == "tuple" and len(k) - 1 == len(tgt.elts):
                 for i, e in enumerate(tgt.elts):
-                    comp = [c0, c1, c2][i](v.t)
-                    assume_typed(st, comp, k[1 + i])
+                    comp = z3.Select(seq_els(v.t), i)
+                    assume_typed(st, comp, k[1 + i], v.h)
                     if isinstance(e, ast.Name) and e.id == "_":
                         continue
-                    self.assign(e, SV(comp, k[1 + i]), st, node)
+                    self.assign(e, SV(comp, k[1 + i], v.h), st, node)
                 return
             raise OutOfSubset("unpacking a value of kind %r (line %s)" % (v.k, line))
         raise OutOfSubset("assignment target %s" % type(tgt).__name__)
@@ -768,15 +770,30 @@ class Exec(EvalMixin, CallMixin):
                     bind_names(s, tgt.elts[1], SV(t, k[2]))
             # enumeration fixed at loop start (mutating a set/dict while iterating raises in CPython)
             return {"guard": lambda s: k_of(s) < n, "bind": bind, "enum": enum, "bound": lambda s: n}
+        if k.head == "iter":
+            # continue an iterator object from its current position
+            ir = ref(base.t)
+            lst = ops.f_get(st, "__it_list", ir)
+            pos0 = ival(ops.f_get(st, "__it_pos", ir))
+            r0 = ref(lst)
+            ek0 = k[1]
+
+            def bind_it(s):
+                t = ops.l_get(s, r0, pos0 + k_of(s))
+                assume_typed(s, t, ek0)
+                bind_names(s, tgt, SV(t, ek0))
+            return {"guard": lambda s: pos0 + k_of(s) < ops.l_len(s, r0), "bind": bind_it,
+                    "bound": lambda s: z3.If(ops.l_len(s, r0) - pos0 > 0, ops.l_len(s, r0) - pos0, 0)}
         if k.head in ("list", "vtuple"):
             r = ref(base.t)
             ek = k[1] if len(k) > 1 else ANY
             hb = base.h
+            view = ops.TupHeap(base.t, hb or st) if k.head == "vtuple" else hb
 
             def bind(s):
-                t = ops.l_get(hb or s, r, k_of(s))
+                t = ops.l_get(view or s, r, k_of(s))
                 assume_typed(s, t, ek, hb)
                 bind_names(s, tgt, SV(t, ek, hb))
-            return {"guard": lambda s: k_of(s) < ops.l_len(hb or s, r), "bind": bind,
-                    "bound": lambda s: ops.l_len(hb or s, r)}
+            return {"guard": lambda s: k_of(s) < ops.l_len(view or s, r), "bind": bind,
+                    "bound": lambda s: ops.l_len(view or s, r)}
         raise OutOfSubset("for loop over kind %r (line %s)" % (base.k, node.lineno))
